@@ -6,6 +6,8 @@ import (
 	"strings"
 	"testing"
 
+	btcbech32 "github.com/cosmos/btcutil/bech32"
+	sdkbech32 "github.com/cosmos/cosmos-sdk/types/bech32"
 	"github.com/google/uuid"
 
 	mdtypes "github.com/provenance-io/provenance/x/metadata/types"
@@ -111,14 +113,14 @@ func mdaDescribe(bz []byte) string {
 		mdaHex(d.AddressNameHash), mdaHex(d.AddressExcess), mdaHex(d.ParentAddress)}, "/")
 	b32 := "-"
 	if err == nil {
-		// bech32 text round trip (library cosmos/btcutil): observed, not modelled
+		// bech32 text: String() is printed (the model computes the same text) and read back
 		s := ma.String()
 		back, hrp2, e2 := mdtypes.ParseMetadataAddressFromBech32(s)
 		back2, e3 := mdtypes.MetadataAddressFromBech32(s)
 		if e2 == nil && e3 == nil && bytes.Equal(back, bz) && bytes.Equal(back2, bz) && hrp2 == hrp && strings.HasPrefix(s, hrp+"1") {
-			b32 = "1"
+			b32 = s
 		} else {
-			b32 = "0"
+			b32 = "!" + s
 		}
 	}
 	var sb strings.Builder
@@ -209,6 +211,18 @@ func mdaExec(op string) (res string) {
 			return "err"
 		}
 		return "ok " + mdaHex(a)
+	case "unb32":
+		// ParseMetadataAddressFromBech32 / MetadataAddressFromBech32 on an arbitrary text
+		txt := string(mdaUnhex(ws[1]))
+		a, hrp, err := mdtypes.ParseMetadataAddressFromBech32(txt)
+		a2, err2 := mdtypes.MetadataAddressFromBech32(txt)
+		if (err == nil) != (err2 == nil) || !bytes.Equal(a, a2) {
+			return "mismatch"
+		}
+		if err != nil {
+			return "err"
+		}
+		return "ok " + mdaHex(a) + " " + hrp
 	case "key":
 		p, k := mdaIndex(ws[1], mdaUnhex(ws[2]), mdaUnhex(ws[3]))
 		return "p=" + mdaHex(p) + " k=" + mdaHex(k) + " d=" + mdaHex(k[len(p):])
@@ -347,8 +361,121 @@ func mdaGenAcc(r *RNG) []byte {
 	}
 }
 
+var mdaHrps = []string{"scope", "session", "record", "contractspec", "scopespec", "recspec", "pb", "x", "Scope"}
+
+const mdaCharset = "qpzry9x8gf2tvdw0s3jn54khce6mua7l"
+
+// mdaGenText: bech32 texts of valid addresses and near misses (case, one character, hrp, payload
+// shape, padding bits, separator, length), plus arbitrary short texts.
+func mdaGenText(r *RNG, out *Out) string {
+	valid := mdtypes.MetadataAddress(mdaGenValid(r))
+	txt := valid.String()
+	mut := func(s string) string {
+		if len(s) == 0 {
+			return s
+		}
+		b := []byte(s)
+		i := r.Intn(len(b))
+		if r.Chance(70) {
+			b[i] = mdaCharset[r.Intn(32)]
+		} else {
+			b[i] = byte(r.Intn(128))
+		}
+		return string(b)
+	}
+	switch r.Intn(16) {
+	case 0, 1, 2:
+		out.Count("text:valid")
+		return txt
+	case 3:
+		out.Count("text:upper")
+		return strings.ToUpper(txt)
+	case 4:
+		out.Count("text:mixedcase")
+		b := []byte(txt)
+		for k := 0; k < 1+r.Intn(3); k++ {
+			i := r.Intn(len(b))
+			b[i] = byte(strings.ToUpper(string(b[i]))[0])
+		}
+		return string(b)
+	case 5, 6:
+		out.Count("text:mutated")
+		if r.Chance(30) {
+			return strings.ToUpper(mut(txt))
+		}
+		return mut(txt)
+	case 7:
+		out.Count("text:otherhrp")
+		s, err := sdkbech32.ConvertAndEncode(Pick(r, mdaHrps), valid)
+		if err != nil {
+			return txt
+		}
+		return s
+	case 8:
+		out.Count("text:otherbytes")
+		bz := mdaGenBytes(r, out)
+		s, err := sdkbech32.ConvertAndEncode(Pick(r, mdaHrps[:6]), bz)
+		if err != nil {
+			return txt
+		}
+		return s
+	case 9:
+		// valid checksum over 5-bit data that is not a padded byte string: an extra group,
+		// non-zero padding bits, or arbitrary groups
+		out.Count("text:badpadding")
+		hrp, _ := mdtypes.VerifyMetadataAddressFormat(valid)
+		d5, _ := btcbech32.ConvertBits(valid, 8, 5, true)
+		switch r.Intn(3) {
+		case 0:
+			d5 = append(d5, byte(r.Intn(32)))
+		case 1:
+			d5[len(d5)-1] |= byte(1 + r.Intn(15))
+		default:
+			d5 = d5[:r.Intn(len(d5))]
+		}
+		s, err := btcbech32.Encode(hrp, d5)
+		if err != nil {
+			return txt
+		}
+		return s
+	case 10:
+		out.Count("text:truncated")
+		return txt[:r.Intn(len(txt))]
+	case 11:
+		out.Count("text:separator")
+		return Pick(r, []string{"1" + txt, strings.Replace(txt, "1", "", 1), strings.Replace(txt, "1", "11", 1),
+			txt[strings.IndexByte(txt, '1'):], "scope1", "1qqqqqq", "a1qqqqqq", "a1qqqqq"})
+	case 12:
+		out.Count("text:space")
+		return Pick(r, []string{"", " ", "  \t ", " " + txt, txt + " ", txt + "\n"})
+	case 13:
+		out.Count("text:nonascii")
+		return Pick(r, []string{"sc\u00f6pe" + txt[5:], txt + "\u540d", "\u540d\u524d", strings.Replace(txt, "q", "\u00e9", 1)})
+	case 14:
+		out.Count("text:long")
+		bz := append([]byte{}, valid...)
+		bz = append(bz, mdaRandBytes(r, Pick(r, []int{600, 620, 640, 700}))...)
+		s, err := sdkbech32.ConvertAndEncode("scope", bz)
+		if err != nil {
+			return txt
+		}
+		return s
+	default:
+		out.Count("text:random")
+		n := r.Intn(30)
+		b := make([]byte, n)
+		for i := range b {
+			b[i] = byte(33 + r.Intn(94))
+		}
+		return string(b)
+	}
+}
+
 func mdaGenOp(r *RNG, out *Out) string {
-	switch x := r.Intn(100); {
+	switch x := r.Intn(115); {
+	case x >= 100:
+		out.Count("op:unb32")
+		return "unb32 " + mdaHex([]byte(mdaGenText(r, out)))
 	case x < 30:
 		k := Pick(r, mdaKinds)
 		arg := "-"
